@@ -122,6 +122,13 @@ func C13(c *Ctx) {
 	legacyHandlers(c)
 	// entitlement is decided from committed state only: nothing a handler or decorator consults can have
 	// been remembered in a module object by a branch that was later discarded (simulate, CheckTx, failed proposal)
+	entitlementFromState(c)
+}
+
+// entitlementFromState: nothing a handler or decorator consults to decide who may act is remembered in a module object
+// (A6.keeper-mutation over the consensus scope, reported as A6.entitlement-from-state). Also run under C03: "approved by
+// the quorum of authorised signers" is decided from the committed signer list only.
+func entitlementFromState(c *Ctx) {
 	scope := consensusScope(c, consensusKinds)
 	var fs []*ssa.Function
 	for f := range scope {
